@@ -17,6 +17,7 @@ from corr import logix_gen as lg
 from corr import c08_wire as w
 from corr import c08_gen as g
 from corr import c08_run as run
+from corr.c03 import rand_req
 
 NPROC = int(os.environ.get("VERIF_PROCS", "0") or 0) or min(16, os.cpu_count() or 1)
 
@@ -25,6 +26,15 @@ NPROC = int(os.environ.get("VERIF_PROCS", "0") or 0) or min(16, os.cpu_count() o
 # the array model of the tags (the property's own notion of "a tag changes only through a complete,
 # well-formed, accepted write")
 # ------------------------------------------------------------------------------------------------
+def rand_req_simple(rng, tg):
+    from corr.c03 import rand_req
+    for _ in range(50):
+        r = rand_req(rng, tg, multi=False, invalid=0)
+        if r["op"] != "mu":
+            return r
+    return {"op": "rt", "path": [["s", tg[0]["name"]]], "n": 1}
+
+
 class Spec(lg.ArraySpec):
     def __init__(self, case, addrs):
         super().__init__(case, addrs)
@@ -130,6 +140,25 @@ def token_for(frame_bytes, rec, symbols, objs, reply_frame):
     return "O", fate + "-", "O"
 
 
+class ChunkFeed:
+    """mode p chunks; a chunk {"cd": request hex, "seq": n} becomes a SendUnitData frame carrying the request as
+    connected data on the connection the simulator last opened for this peer (its O->T connection ID is random)"""
+
+    def __init__(self, chunks, dev, out):
+        self.chunks, self.dev, self.out = chunks, dev, out
+
+    def __iter__(self):
+        for c in self.chunks:
+            if isinstance(c, dict):
+                ids = [k[2] for k in self.dev.device.Connection_Manager.forwards if k[:2] == ("10.0.0.1", 40000)]
+                cid = ids[-1] if ids else 0x11223344
+                req = bytes.fromhex(c["cd"])
+                c = w.enc_frame(0x70, struct.pack("<IH", 0, 0) + w.enc_cpf(
+                    [(0xa1, struct.pack("<I", cid)), (0xb1, struct.pack("<H", c.get("seq", 1)) + req)]))
+            self.out.append(c)
+            yield c
+
+
 def run_case(case):
     """-> dict(line, info, tagline, addrs, verdict, stats)"""
     dev = lc.Device(case)
@@ -144,8 +173,13 @@ def run_case(case):
 
 def _run_case(case, dev):
     mode = case["mode"]
-    chunks = [bytes.fromhex(c) for c in case["chunks"]]
-    nbytes = sum(len(c) for c in chunks)
+    chunks = [bytes.fromhex(c) if isinstance(c, str) else c for c in case["chunks"]]
+    nbytes = sum(len(c) if isinstance(c, bytes) else 60 + len(c["cd"]) // 2 for c in chunks)
+    if mode == "p":
+        materialized = []
+        chunks = ChunkFeed(chunks, dev, materialized)
+    else:
+        materialized = chunks
     addrs = {k: list(v) for k, v in dev.addrs.items()}
     symbols = {t["name"].lower(): tuple(dev.addrs[t["name"]]) for t in case["tags"]}
     objs = {(2, 1)} | {(a[0], a[1]) for a in symbols.values()}
@@ -156,7 +190,7 @@ def _run_case(case, dev):
     run.Counter.count = 0
     run.Counter.budget = run.HANG_FACTOR * bound
     outs, infos = [], []
-    split = frames_of(mode, chunks)
+    split = frames_of(mode, chunks) if mode == "s" else None
     bystander_calls = []
 
     if mode == "s":
@@ -244,6 +278,7 @@ def _run_case(case, dev):
                     rec["exc"] = "encode:" + type(exc).__name__
             calls.append(rec)
         steps = run.Counter.count
+        split = frames_of(mode, materialized)
     run.Counter.budget = None
     stats["steps"] = steps
     stats["bytes"] = nbytes
@@ -320,6 +355,7 @@ def _run_case(case, dev):
             pre.append(w.req_line(m))
     line = (";".join(outs) if outs else "-") + f"#{len(outs)}"
     return {"line": line, "info": ";".join(infos) if infos else "-", "tagline": dev.tag_line(case), "addrs": addrs,
+            "chunks": [c.hex() for c in materialized],
             "pre": ";".join(pre) if pre else "-",
             "verdict": complaints[0] if complaints else None, "stats": stats}
 
@@ -384,13 +420,81 @@ def run_engine_case(case):
             "stats": {"kinds": ["E:" + line.split(":")[2]], "exc": [], "steps": run.Counter.count, "bytes": ln}}
 
 
+def nest_request(tree):
+    """tree = ["leaf", request] | ["mu", [tree...]] -> request bytes (bundles addressed to the Message Router)"""
+    if tree[0] == "leaf":
+        return w.enc_request(tree[1])
+    ms = [nest_request(t) for t in tree[1]]
+    off = 2 + 2 * len(ms)
+    offs = []
+    for m in ms:
+        offs.append(off)
+        off += len(m)
+    return (b"\x0a" + w.enc_epath([["c", 2], ["i", 1]]) + struct.pack("<H", len(ms))
+            + b"".join(struct.pack("<H", o) for o in offs) + b"".join(ms))
+
+
+def tree_depth(t):
+    return 0 if t[0] == "leaf" else 1 + max(tree_depth(x) for x in t[1])
+
+
+def run_nested_case(case):
+    """Multiple Service Packets inside Multiple Service Packets: bytes the real member parsers are handed at
+    all levels (the model's `scanCost`), engine steps, and the usual state check"""
+    req = nest_request(case["tree"])
+    frame = w.enc_send(w.enc_unconnected(req))
+    dev = lc.Device(case)
+    run.install_counter()
+    run.install_member_counter()
+    run.reset_globals(dev)
+    try:
+        import cpppo
+        from cpppo.server.enip import parser
+        data = cpppo.dotdict()
+        with parser.enip_machine(context="enip") as m:
+            for _ in m.run(path="request", source=cpppo.chainable(frame), data=data):
+                pass
+        run.MemberBytes.total = 0
+        run.Counter.count = 0
+        bound = run.STEP_A * len(frame) + run.STEP_B
+        run.Counter.budget = run.HANG_FACTOR * 50 * bound
+        sess = run.Session(dev, ("10.0.0.1", 40000))
+        sess.conn = run.FakeConn([])
+        try:
+            sess.process(("10.0.0.1", 40000), data)
+        except run.Hang:
+            raise
+        except BaseException:
+            pass
+        steps = run.Counter.count
+        scanned = run.MemberBytes.total + len(req)
+        rec = sess.calls[0]
+        spec = Spec(case, {k: list(v) for k, v in dev.addrs.items()})
+        verdict = None
+        for mreq, mreply in rec["cp"][1]:
+            verdict = verdict or spec.apply(mreq, mreply)
+        verdict = verdict or spec.check_dump(rec["dump"])
+        if verdict is None and steps > bound:
+            verdict = (f"{steps} engine steps for a {len(frame)}-byte frame exceeds {run.STEP_A}*len+{run.STEP_B}: "
+                       f"nested Multiple Service Packets are re-parsed at every level ({scanned} symbols consumed "
+                       f"for a {len(req)}-byte request)")
+        return {"line": str(scanned), "info": "-", "tagline": "-", "addrs": {}, "verdict": verdict, "req": req.hex(),
+                "stats": {"kinds": ["N"], "exc": [], "steps": steps, "bytes": len(frame)}}
+    finally:
+        run.Counter.budget = None
+        dev.close()
+
+
 def _pool_run(case):
     try:
         if case["mode"] == "e":
             return run_engine_case(case)
+        if case["mode"] == "n":
+            return run_nested_case(case)
         return run_case(case)
     except run.Hang:
-        return {"line": "hang", "info": "-", "tagline": None, "addrs": {}, "stats": {"kinds": ["hang"], "exc": [], "steps": -1,
+        run.Counter.budget = None
+        return {"line": "hang", "info": "-", "tagline": "-", "addrs": {}, "stats": {"kinds": ["hang"], "exc": [], "steps": -1,
                                                                                  "bytes": 0},
                 "verdict": "no termination within %d x the linear step bound (hang)" % run.HANG_FACTOR}
     except Exception as exc:   # harness trouble must be visible, not silent
@@ -406,16 +510,22 @@ def _pool_run(case):
 class C08(Suite):
     id = "C08"
     props_module = "Cpppo.Props.C08"
-    rule = ("streams for the real enip_srv_tcp (mode s: register + mostly valid tag requests with hostile frames mixed in, "
-            "random recv blocks; a fraction with a second, already existing session that must keep working) and "
-            "independent frames for logix.process (mode p); hostile frames = every numeric field of every valid "
-            "message kind (encapsulation length, CPF count/type/length, Unconnected Send length/path/route size, "
-            "EPATH size/segment types/symbol length, Multiple Service count/offsets, type/elements/offset, data) set "
-            "to boundary values, bit flips, deletions, insertions, truncations at every offset, appended bytes, "
-            "re-lengthed damage, random bytes, and the non-tag message kinds (register, list*, legacy, forward "
-            "open/close, connected data, get attribute list, other objects) with the same mutations. "
-            "non-trivial = a case with at least one frame outside the well-formed grammar that the code processed "
-            "or refused; distinct by the bytes sent")
+    extra_modules = ["Cpppo.Proofs.Serve", "Cpppo.Proofs.Crumbs"]
+    rule = ("mode s: byte streams through the real enip_srv/enip_srv_tcp on a network.server_thread with a scripted "
+            "connection (register + mostly valid tag requests with hostile frames mixed in, random recv blocks; 15% with "
+            "a second, already existing session that must keep working; pure noise); mode p: independent frames through "
+            "the real enip_machine + logix.process (exhaustive small scope: for one canonical frame per service x "
+            "wrapped/bare, every numeric field (encapsulation length, CPF count/type/length, Unconnected Send "
+            "length/path/route size, EPATH size/segment types/symbol length, Multiple Service count/offsets, "
+            "type/elements/offset) x boundary values, every truncation with and without fixed-up length, every single "
+            "deletion, every bit flip (thorough), every data length of Set Attribute Single / element count of writes; "
+            "the non-tag message kinds (register, list*, legacy, forward open/close, connected data, get attribute list, "
+            "other objects) truncated and bit-flipped; random mutations (field, bitflip, delete, insert, truncate, append, "
+            "overwrite, re-lengthed damage) of random valid frames on random devices; connected sessions); mode e: small "
+            "machines (exhaustive 2-state, random <= 5 states, epsilon cycles) on the real automata engine; mode n: "
+            "Multiple Service Packets nested in one another. non-trivial = a case with at least one frame outside the "
+            "well-formed grammar (refused, answered by something else, quirk-accepted, incomplete), a machine that makes "
+            ">= 2 passes, or a nested bundle; distinct by the bytes sent")
     assumptions = [
         "tag-holding objects only (Logix Message Router + classes derived by setup_tag); other objects' replies are "
         "not modelled: frames addressed to them only have to leave every tag alone",
@@ -507,6 +617,15 @@ class C08(Suite):
                     for j in range(len(b)):
                         for bit in range(8):
                             muts.append(("bitflip", b[:j] + bytes([b[j] ^ (1 << bit)]) + b[j + 1:]))
+                if r["op"] == "ss":
+                    # Set Attribute Single with every data length around the attribute's size
+                    for n in range(0, 19):
+                        muts.append(("ss-size", bytes(g.b_frame(dict(r, data=[(7 * j + 1) % 256 for j in range(n)]),
+                                                               wrapped=wrapped).b)))
+                if r["op"] in ("wt", "wf"):
+                    # more / fewer data elements than the element count says
+                    for n in range(0, 6):
+                        muts.append(("wt-count", bytes(g.b_frame(dict(r, vals=(r["vals"] * 6)[:n]), wrapped=wrapped).b)))
                 for m in muts:
                     if not m[1]:
                         continue
@@ -528,7 +647,7 @@ class C08(Suite):
                        "mut": "other:" + name}
 
         # 2. random independent frames (mode p): random devices, mutated valid frames
-        for _ in range(150 if quick else 6000):
+        for _ in range(400 if quick else 6000):
             tg = lg.rand_tags(rng)
             chunks, kinds = [], set()
             for _ in range(rng.randint(4, 16)):
@@ -537,10 +656,10 @@ class C08(Suite):
                 if b:
                     chunks.append(b.hex())
             yield {"mode": "p", "budget": rng.choice([488, 488, 100, 24]), "tags": tg, "chunks": chunks,
-                   "mut": "+".join(sorted(kinds))[:60]}
+                   "mut": sorted(kinds)[0] if kinds else "none"}
 
         # 3. streams through the real server (mode s)
-        for n in range(700 if quick else 24000):
+        for n in range(1800 if quick else 24000):
             tg = lg.rand_tags(rng)
             stream, kinds = [], set()
             if rng.random() < 0.85:
@@ -560,7 +679,8 @@ class C08(Suite):
                 stream.append(g.OTHER_VALID["unregister"])
             data = b"".join(stream)
             c = {"mode": "s", "budget": rng.choice([488, 488, 100, 24]), "tags": tg,
-                 "chunks": [x.hex() for x in g.chunked(rng, data)], "peer": n, "mut": "+".join(sorted(kinds))[:60]}
+                 "chunks": [x.hex() for x in g.chunked(rng, data)], "peer": n,
+                 "mut": sorted(kinds - {"valid"})[0] if kinds - {"valid"} else "valid"}
             if rng.random() < 0.15:
                 c["bystander"] = self.bystander(rng, tg)
             yield c
@@ -577,7 +697,7 @@ class C08(Suite):
                     term = ["01", "10", "11", "00"][(len(edges) + kinds.count("c")) % 4]
                     yield {"mode": "e", "kinds": kinds, "terminal": term, "edges": edges,
                            "input": ["", "41", "4141", "4241"][len(edges) % 4]}
-        for _ in range(1500 if quick else 20000):
+        for _ in range(3000 if quick else 20000):
             n = rng.randint(1, 5)
             kinds = "".join(rng.choice("ppc") for _ in range(n))
             term = "".join(rng.choice("01") for _ in range(n))
@@ -589,8 +709,36 @@ class C08(Suite):
             inp = bytes(rng.choice([0x41, 0x42, 0x43]) for _ in range(rng.choice([0, 1, 2, 3, 4, 6]))).hex()
             yield {"mode": "e", "kinds": kinds, "terminal": term, "edges": edges, "input": inp}
 
+        # 7. connected (Forward Open) sessions: requests carried as connected data, before / after Forward Close
+        for _ in range(100 if quick else 1200):
+            tg = lg.rand_tags(rng, max_tags=3)
+            chunks = [g.OTHER_VALID["register"].hex()]
+            if rng.random() < 0.85:
+                chunks.append(g.OTHER_VALID[rng.choice(["fwd_open", "fwd_open", "fwd_open2"])].hex())
+            for k in range(rng.randint(1, 6)):
+                r = rand_req(rng, tg, invalid=0.1) if rng.random() < 0.8 else rand_req_simple(rng, tg)
+                req = w.enc_request(r)
+                if rng.random() < 0.25:
+                    _k, req = g.mutate_raw(rng, req)
+                if req:
+                    chunks.append({"cd": req.hex(), "seq": k + 1})
+                if rng.random() < 0.15:
+                    chunks.append(g.OTHER_VALID["fwd_close"].hex())
+            yield {"mode": "p", "budget": 488, "tags": tg, "chunks": chunks, "mut": "connected"}
+
+        # 6. Multiple Service Packets nested in one another (small depths: the parsers' work per level)
+        for _ in range(100 if quick else 1500):
+            tg = lg.rand_tags(rng, max_tags=3)
+
+            def tree(depth):
+                if depth == 0 or rng.random() < 0.4:
+                    return ["leaf", rand_req_simple(rng, tg)]
+                return ["mu", [tree(depth - 1) for _ in range(rng.randint(1, 3))]]
+            t = ["mu", [tree(rng.choice([0, 1, 1, 2])) for _ in range(rng.randint(1, 3))]]
+            yield {"mode": "n", "budget": 488, "tags": tg, "tree": t}
+
         # 4. pure noise
-        for n in range(100 if quick else 3000):
+        for n in range(250 if quick else 3000):
             tg = lg.rand_tags(rng, max_tags=2)
             ln = rng.choice([1, 2, 23, 24, 25, 40, 64, 100, 300, 1000])
             b = bytes(rng.randrange(256) for _ in range(ln))
@@ -646,38 +794,49 @@ class C08(Suite):
         if c["mode"] == "e":
             edges = ",".join(f"{s}.{sym}>{t}" for s, sym, t in c["edges"]) or "-"
             return f"eng {c['kinds']} {c['terminal']} {edges} {c['input'] or '-'}"
+        if c["mode"] == "n":
+            return "scan " + nest_request(c["tree"]).hex()
         res = self._res(c)
         if res["tagline"] is None:
             return "c08-not-run"
+        chunks = res.get("chunks", c["chunks"])
         return (f"c08 {c['mode']} {c['budget']} {res['tagline']} {res.get('pre', '-')} "
-                f"{','.join(c['chunks']) if c['chunks'] else '-'} {res['info']}")
+                f"{','.join(chunks) if chunks else '-'} {res['info']}")
 
     def oracle(self, c, out):
         return self._res(c)["verdict"]
 
     def known_key(self, c):
-        if c["mode"] == "e":
+        if c["mode"] in ("e", "n"):
             return self.model_line(c)
         return json.dumps({k: c[k] for k in ("mode", "budget", "tags", "chunks")}, sort_keys=True)
 
     def nontrivial(self, c, out):
         if c["mode"] == "e":
             # a machine with a cycle that consumes nothing, or that ran out of input / transitions
-            return self.model_line(c) if int(out.split(":")[0]) >= 2 else None
+            first = out.split(":")[0]
+            return self.model_line(c) if first.isdigit() and int(first) >= 2 else None
+        if c["mode"] == "n":
+            return self.model_line(c)
         kinds = self._res(c)["stats"]["kinds"]
         if any(k[0] in "OQI" for k in kinds):
-            return hashlib.sha1(("".join(c["chunks"]) + c["mode"]).encode()).hexdigest()
+            return hashlib.sha1((json.dumps(c["chunks"]) + c["mode"]).encode()).hexdigest()
         return None
 
     def classify(self, c, out):
         if c["mode"] == "e":
             return "e|" + out.split(":")[-1]
+        if c["mode"] == "n":
+            return "n|depth" + str(tree_depth(c["tree"]))
         st = self._res(c)["stats"]
         kinds = "".join(sorted({k[0] for k in st["kinds"]})) or "none"
-        exc = "+".join(sorted(set(st["exc"])))[:40]
+        exc = "+".join(sorted(set(st["exc"])))
+        exc = "exc" if exc else "noexc"
         return f"{c['mode']}|{c.get('mut', '?')}|{kinds}|{exc}"
 
     def shrink(self, c):
+        if c["mode"] == "n":
+            return
         if c["mode"] == "e":
             for i in range(len(c["edges"])):
                 yield dict(c, edges=c["edges"][:i] + c["edges"][i + 1:])
